@@ -1,6 +1,6 @@
 """Per-property check procedures. Each takes a vcheck.Ctx."""
 import json, os, random, re
-from vcheck import Broken, write_ndjson, read_ndjson
+from vcheck import Broken, write_ndjson, read_ndjson, SPECS
 
 TABLE = {}
 
@@ -45,9 +45,24 @@ def c11(ctx):
                         "one goroutine sends and one receives per Conn"]
     # (M) every interleaving of caller, writer goroutine and receiver at tiny buffer sizes
     ctx.tlc_expect_ok("Conn", "Conn_mc.cfg", cfg_text=CONN_MC % (3 if thorough else 2), timeout=3000)
+    # the buffer dimensions are the implementation's own (measured on a live Conn), not numbers copied into the cfg files:
+    # the specification is generic in them and so is the property
+    k = json.loads(ctx.run_vh(["c11", "consts"], timeout=120).stdout)
+    W, R, NB = k["wbuf"], k["rbuf"], k["nbufs"]
+    ctx.cov["implementation_constants"] = k
+    lens = sorted({0, 1, 15, 16, 17, W - 5, W - 4, W - 3, W - 1, W, W + 1, W + 5, 2 * W, R - 1, R, R + 1, 3 * R})
+
+    def conn_cfg(name):
+        t = open(os.path.join(SPECS, name)).read()
+        t = re.sub(r"WBuf = \d+", "WBuf = %d" % W, t)
+        t = re.sub(r"RBuf = \d+", "RBuf = %d" % R, t)
+        t = re.sub(r"NBufs = \d+", "NBufs = %d" % NB, t)
+        if "Lens = {0," in t:
+            t = re.sub(r"  Lens = \{[^}]*\}", "  Lens = {%s}" % ", ".join(str(x) for x in lens if x >= 0), t)
+        return t
     # (G) behaviours with the real buffer sizes, replayed on the real Conn
     num = 400 if thorough else 40
-    g = ctx.tlc("ConnGen", "Conn_gen.cfg", mode="sim", workers=1, sim="num=%d" % num, depth=30000, timeout=1500)
+    g = ctx.tlc("ConnGen", "Conn_gen.cfg", mode="sim", workers=1, sim="num=%d" % num, depth=30000, timeout=1500, cfg_text=conn_cfg("Conn_gen.cfg"))
     if g["status"] != "ok" or not g["cases"]:
         raise Broken("generator produced no cases: %s\n%s" % (g["status"], g["out"][-2000:]))
     cases = os.path.join(ctx.tmp, "c11cases.ndjson")
@@ -76,7 +91,7 @@ def c11(ctx):
                       a["out"][-3000:])
     elif a["status"] != "ok":
         raise Broken("ConnAbs trace check failed: %s\n%s" % (a["status"], a["out"][-3000:]))
-    t = ctx.tlc("ConnTrace", "ConnTrace.cfg", mode="trace", files=[trace], timeout=1500)
+    t = ctx.tlc("ConnTrace", "ConnTrace.cfg", mode="trace", files=[trace], timeout=1500, cfg_text=conn_cfg("ConnTrace.cfg"))
     if t["status"] == "ok":
         ctx.cov["traces_validated_against_impl"] += 2 * nsess
     elif t["status"] in ("postcondition", "invariant"):
@@ -98,7 +113,7 @@ def c11(ctx):
         p = os.path.join(ctx.tmp, "selftest", "conn_trace.ndjson")
         os.makedirs(os.path.dirname(p), exist_ok=True)
         write_ndjson(p, r2)
-        x = ctx.tlc("ConnTrace", "ConnTrace.cfg", mode="trace", files=[p], timeout=1500, name="selftest-" + mut)
+        x = ctx.tlc("ConnTrace", "ConnTrace.cfg", mode="trace", files=[p], timeout=1500, name="selftest-" + mut, cfg_text=conn_cfg("ConnTrace.cfg"))
         st[name] = x["status"]
         if x["status"] == "ok":
             raise Broken("binding self-test: ConnTrace accepted a trace with a %s" % name)
@@ -988,11 +1003,17 @@ def c06(ctx):
             raise Broken("OTExt.tla does not reject the deviation %s (%s)" % (nm, r["status"]))
     ctx.cov["spec_rejects_deviations"] = guards
     # (G) batch sequences with predicted chunk sizes, run on one real IKNP pair each
-    gen = "CONSTANTS\n  GenSizes = %s\n  GenModes = {\"labels\", \"bits\", \"labelsm\"}\n  GenLen = %d\nCONSTRAINT Emit"
+    # rows per extension message: the implementation's own constant (measured), so that the predicted message sizes and
+    # the batch sizes around the chunk boundary follow it
+    cr = json.loads(ctx.run_vh(["c06", "consts"], timeout=300).stdout)["chunk_rows"]
+    ctx.cov["implementation_constants"] = {"chunk_rows": cr}
+    sizes = sorted(set(json.loads(OT_SIZES.replace("{", "[").replace("}", "]"))) | {cr - 1, cr, cr + 1, 2 * cr - 1, 2 * cr, 2 * cr + 1, 4 * cr + 1})
+    ot_sizes = "{" + ", ".join(str(x) for x in sizes if x >= 1) + "}"
+    gen = "CONSTANTS\n  GenSizes = %s\n  GenModes = {\"labels\", \"bits\", \"labelsm\"}\n  GenLen = %d\n  RealChunkRows = " + str(cr) + "\nCONSTRAINT Emit"
     g1 = ctx.tlc("OTExtGen", "OTExt_gen.cfg", mode="gen", workers=1, name="otext-gen1",
-                 cfg_text=OTEXT_CFG % ("GenSpec", 1, 1, "TRUE", "TRUE", "TRUE", gen % (OT_SIZES, 1)))
+                 cfg_text=OTEXT_CFG % ("GenSpec", 1, 1, "TRUE", "TRUE", "TRUE", gen % (ot_sizes, 1)))
     g2 = ctx.tlc("OTExtGen", "OTExt_gen.cfg", mode="sim", workers=1, name="otext-gen2", sim="num=%d" % (600 if thorough else 60), depth=4,
-                 cfg_text=OTEXT_CFG % ("GenSpec", 1, 1, "TRUE", "TRUE", "TRUE", gen % (OT_SIZES, 3)))
+                 cfg_text=OTEXT_CFG % ("GenSpec", 1, 1, "TRUE", "TRUE", "TRUE", gen % (ot_sizes, 3)))
     if g1["status"] != "ok" or not g1["cases"]:
         raise Broken("OTExtGen failed: %s\n%s" % (g1["status"], g1["out"][-2000:]))
     multi = [c for c in g2["cases"] if len(c["batches"]) >= 2]
@@ -1286,20 +1307,22 @@ def c07(ctx):
     ctx.absorb(wres)
     rows = read_ndjson(trace)
     ctx.cov["wide_events"] = len(rows)
-    t = ctx.tlc("ArithTrace", "ArithTrace.cfg", mode="trace", files=[trace], timeout=3400, xss="64m")
-    if t["status"] == "invariant":
-        import re
-        m = re.findall(r"bad = (\d+)", t["out"])
-        ln = int(m[-1]) if m else 0
-        ev = rows[ln - 1] if 0 < ln <= len(rows) else {}
-        ctx.violation("wide:%s:%s:%s,%s,%s" % (ev.get("op"), ev.get("target"), ev.get("wx"), ev.get("wy"), ev.get("wz")),
-                      "the %s circuit for operand widths (%s,%s), result width %s on %s computes a result that violates the exact "
-                      "relation (trace line %d: x=%s y=%s z=%s, base-4096 limbs)" % (ev.get("op"), ev.get("wx"), ev.get("wy"), ev.get("wz"),
-                                                                                   ev.get("target"), ln, ev.get("x"), ev.get("y"), ev.get("z")), ev)
-    elif t["status"] != "ok":
+    # every event is judged (no invariant in this configuration: the trace contains the listed finding of the GMW divider)
+    t = ctx.tlc("ArithTrace", "ArithTrace.cfg", mode="trace", files=[trace], timeout=3400, xss="64m",
+                cfg_text="SPECIFICATION Spec\nPOSTCONDITION Accepted\nCHECK_DEADLOCK FALSE\n")
+    if t["status"] != "ok":
         raise Broken("ArithTrace failed: %s\n%s" % (t["status"], t["out"][-3000:]))
-    else:
-        ctx.cov["traces_validated_against_impl"] += len(rows)
+    badlines = sorted(set(int(x) for x in re.findall(r'<<"VHBAD", (\d+)>>', t["out"])))
+    for ln in badlines:
+        ev = rows[ln - 1] if 0 < ln <= len(rows) else {}
+        key = "wide:%s:%s:%s,%s,%s" % (ev.get("op"), ev.get("target"), ev.get("wx"), ev.get("wy"), ev.get("wz"))
+        if ev.get("allones"):
+            # the dividend 2^w - 1 on the GMW divider: the input class of the listed finding
+            key = "wide:%s:%s:x=allones:%s" % (ev.get("op"), ev.get("target"), ev.get("wx"))
+        ctx.violation(key, "the %s circuit for operand widths (%s,%s), result width %s on %s computes a result that violates the exact "
+                      "relation (trace line %d: x=%s y=%s z=%s r=%s, base-4096 limbs)" % (ev.get("op"), ev.get("wx"), ev.get("wy"), ev.get("wz"),
+                                                                                       ev.get("target"), ln, ev.get("x"), ev.get("y"), ev.get("z"), ev.get("r")), ev)
+    ctx.cov["traces_validated_against_impl"] += len(rows) - len(badlines)
     # binding self-test
     r2 = [json.loads(json.dumps(x)) for x in rows]
     i = next((i for i, x in enumerate(r2) if x["op"] == "mul"), None)
@@ -1504,10 +1527,14 @@ def c12(ctx):
                 continue
             if not thorough and rr.random() > 0.3:
                 continue
-            d = dict(c)
-            d["route"] = route
-            d["swap"] = rr.randrange(2) if route in ("unsized", "cast") else 0
-            routed.append(d)
+            pick = rr.randrange(2)
+            for swap in ((0, 1) if route in ("unsized", "cast") else (0,)):
+                if not thorough and route in ("unsized", "cast") and swap != pick:
+                    continue
+                d = dict(c)
+                d["route"] = route
+                d["swap"] = swap
+                routed.append(d)
     base_i = len(space) + 10
     for j, d in enumerate(routed):
         d["i"] = base_i + 2 * j
